@@ -309,6 +309,25 @@ def check(ctx):
                "UTF-8 and read_csv with the same encoding fails -- " + " -> ".join(map(repr, bad[0])),
                clause="every encoding option used consistently on both sides")
     lw, lr = repo.fn(f"{LOD}.write_csv"), repo.fn(f"{LOD}.read_csv")
+    # the header row is written / consumed exactly when `header` is true, on both sides
+    from ..facts import context_facts as _cf
+    n_hdr = 0
+    for fn_, what, pred in ((lw, "written", lambda c: isinstance(c.func, ast.Attribute) and c.func.attr == "writeheader"),
+                            (lr, "taken off the rows", lambda c: isinstance(c.func, ast.Attribute) and c.func.attr == "pop" and c.args
+                             and isinstance(c.args[0], ast.Constant) and c.args[0].value == 0
+                             or (isinstance(c.func, ast.Name) and c.func.id == "next"))):
+        for _, c in calls_in(fn_):
+            if not pred(c):
+                continue
+            n_hdr += 1
+            fx = set(facts_at(fn_, c)) | set(_cf(fn_, c))
+            okh = ("T", "header") in fx
+            ctx.ob("FWD-live", fn_, f"header row {what} by {norm(c)} only under `header`", c, okh,
+                   "with header=False no header row is written and none is consumed" if okh else
+                   f"{norm(c)} is not under `if header`: with header=False on both sides the first DATA row is "
+                   f"{'dropped as if it were the header' if fn_ is lr else 'preceded by a header the reader takes for data'}",
+                   clause="every header option used consistently on both sides")
+    ctx.count("header-row sites of the ListOfDicts CSV pair", n_hdr, 2)
     feats = {}
     DIALECT = ("dialect", "delimiter", "quotechar", "escapechar", "doublequote", "skipinitialspace", "lineterminator", "quoting", "strict")
     for fn in (lw, lr):
